@@ -218,6 +218,22 @@ def hazards(ctx: Ctx, funcs, clause: str = "S0"):
                     f"form with `{bfi[0]['stride']}`: the row stride must be the number of columns `{bfi[0]['cols']}`; the lookup is "
                     f"only right for square tables") if bfi else "", rel, bfi[0]["node"].lineno if bfi else f.line,
                    sample=[(x["stride"], x["cols"]) for x in fi], nontrivial=False)
+        from rules.dropped import discarded_results, dropped_options, vacuous_any_of_self_comparison
+        va = vacuous_any_of_self_comparison(f)
+        if va:
+            col.ob("G42", clause, f"{where}::all-equal-test-is-not-vacuous", False,
+                   f"`{u(va[0])[:80]}` asks whether SOME entry equals the first entry, which is always true; 'all entries are equal' needs "
+                   f".all(): entries that differ are accepted as uniform", rel, va[0].lineno, nontrivial=False)
+        dro = dropped_options(ctx.pkg, ctx.res, f)
+        col.ob("G38", clause, f"{where}::same-named-options-are-forwarded", not dro,
+               (f"{f.qualname} accepts `{dro[0]['formal']}` but calls {dro[0]['callee']} without it (`{u(dro[0]['node'])[:80]}`): the callee "
+                f"falls back to its default and what the caller asked for is silently ignored") if dro else "", rel,
+               dro[0]["node"].lineno if dro else f.line, sample=[(d_["callee"], d_["formal"]) for d_ in dro], nontrivial=False)
+        dis = discarded_results(f)
+        col.ob("G39", clause, f"{where}::no-out-of-place-result-is-discarded", not dis,
+               (f"`{u(dis[0])[:70]}` computes a new value and drops it (the out-of-place form does not change its receiver): the "
+                f"statement has no effect and the code below works on the un-transformed value") if dis else "", rel,
+               dis[0].lineno if dis else f.line, nontrivial=False)
         df = dead_formals(f)
         col.ob("G33", clause, f"{where}::every-accepted-option-is-read", not df,
                (f"`{df[0]}` is accepted by {f.qualname} but nothing in its body reads it: whatever the caller passes is silently "
